@@ -317,12 +317,12 @@ def shards(tier, seed):
     parts = 8 if tier == "quick" else 16
     for fw in ("tx", "aio"):
         for i in range(parts):
-            out.append({"name": "%s-%d" % (fw, i), "fw": fw, "env": env_nvx, "timeout": 2400,
+            out.append({"name": "%s-%d" % (fw, i), "fw": fw, "env": env_nvx, "timeout": 7200,
                         "params": {"tier": tier, "seed": seed, "part": i, "parts": parts, "nvx": 1}})
     if tier == "thorough":
         for fw in ("tx", "aio"):
             for i in range(2):
-                out.append({"name": "%s-pure-%d" % (fw, i), "fw": fw, "env": {"AUTOBAHN_USE_NVX": "0"}, "timeout": 2400,
+                out.append({"name": "%s-pure-%d" % (fw, i), "fw": fw, "env": {"AUTOBAHN_USE_NVX": "0"}, "timeout": 7200,
                             "params": {"tier": "pure", "seed": seed, "part": i, "parts": 2, "nvx": 0}})
     return out
 
@@ -384,7 +384,7 @@ def run_shard(params, R):
                     R.count("enumerated_cases")
                 idx += 1
     # ---- seeded random time lines
-    n_rand = {"quick": 1500, "pure": 1500, "thorough": 40000}[tier]
+    n_rand = {"quick": 1500, "pure": 1500, "thorough": 20000}[tier]
     rng = random.Random(seed * 1000003 + part * 7919 + (0 if fw == "tx" else 1) + (17 if tier == "pure" else 0))
     for _ in range(n_rand):
         judge(gen_random(rng), R, fw, sample_every=2999)
